@@ -5,6 +5,7 @@ package internal
 // Contracts for package internal (daemon wiring), read by /verif/govc (comment-only, -tags verif).
 
 //@ func updateSensor
+//@   params (s)
 //@   props C08 C09
 //@   split s
 //@   requires sensors.sensorWF(s) && configuration.CurrentConfig.TempRollingWindowSize >= 1 && configuration.CurrentConfig.TempRollingWindowSize <= 1000000000
@@ -21,6 +22,7 @@ package internal
 //@   trusted "closing a channel has no effect on verified state; closing one that is registered with signal.Notify makes the next signal delivery panic"
 
 //@ func RunDaemon$10
+//@   params (err)
 //@   props C03
 //@   atcall[C03.noclose] close: false
 //@   modifies anything
@@ -31,6 +33,7 @@ package internal
 
 // ---- sensor monitor actor (C09) ------------------------------------------------------------------------------
 //@ func (sensorMonitor).Run
+//@   params (s, ctx)
 //@   props C09
 //@   requires sensors.sensorWF(s.sensor) && ctx != nil && configuration.CurrentConfig.TempRollingWindowSize >= 1 && configuration.CurrentConfig.TempRollingWindowSize <= 1000000000
 //@   ensures[C09.noerr] result == nil
@@ -46,12 +49,15 @@ package internal
 
 // ---- start-up: binding hwmon sensors to devices (C17) -----------------------------------------------------------
 //@ opaque func github.com/markusressel/fan2go/internal/statistics.NewSensorCollector
+//@   params (sensors)
 //@   modifies nothing
 //@   trusted "prometheus collector constructor; no effect on sensors or configuration"
 //@ opaque func github.com/markusressel/fan2go/internal/statistics.Register
+//@   params (collector)
 //@   modifies nothing
 //@   trusted "prometheus registration; no effect on sensors or configuration"
 //@ opaque func github.com/markusressel/fan2go/internal/sensors.RegisterSensor
+//@   params (sensor)
 //@   modifies sensorReg, sensorFinite
 //@   trusted "stores the sensor in the package-level registry"
 
@@ -59,6 +65,7 @@ package internal
 //@ pure sensorCfgs() []configuration.SensorConfig = configuration.CurrentConfig.Sensors
 
 //@ func initializeSensors
+//@   params (controllers)
 //@   props C17
 //@   requires forall i int :: 0 <= i && i < len(controllers) ==> controllers[i] != nil
 //@   requires forall i int, k int :: 0 <= i && i < len(controllers) && (k in controllers[i].Sensors) ==> controllers[i].Sensors[k] != nil
@@ -75,12 +82,14 @@ package internal
 
 // ---- accepted configuration => evaluation preconditions (C11) ------------------------------------------------
 //@ func lemmaAcceptedFunctionCurve
+//@   params (cfg, i, c)
 //@   props C11
 //@   requires cfg != nil && c != nil && 0 <= i && i < len(cfg.Curves) && cfg.Curves[i].Function != nil && c.Config.Function == cfg.Curves[i].Function && c.Config.ID == cfg.Curves[i].ID
 //@   requires configuration.curveShapeOK(cfg, i) && configuration.curveRefsOK(cfg, i) && configuration.curveEvaluable(cfg, i) && len(cfg.Curves[i].Function.Curves) <= 100000
 //@   requires forall id string :: configuration.hasCurve(cfg, id) ==> id in curveReg
 //@   modifies anything
 //@ func lemmaAcceptedLinearCurve
+//@   params (cfg, i, c)
 //@   props C11
 //@   requires cfg != nil && c != nil && 0 <= i && i < len(cfg.Curves) && cfg.Curves[i].Linear != nil && c.Config.Linear == cfg.Curves[i].Linear
 //@   requires configuration.curveShapeOK(cfg, i) && configuration.curveRefsOK(cfg, i) && configuration.curveEvaluable(cfg, i)
